@@ -40,7 +40,7 @@ Proof. exact unescape_to_bytes_escapify. Qed.
 Print Assumptions unescape_to_bytes_inverts_escapify.
 
 (* the code-point path (Tokenizer.get_string = Token.unescape, then str.encode()), still used by
-   GPOS/NSEC3/... and, before fix ae0ac04, by HINFO/X25/ISDN/CAA/NAPTR: correct for ASCII only *)
+   GPOS/NSEC3/... and, before fix 83744a5, by HINFO/X25/ISDN/CAA/NAPTR: correct for ASCII only *)
 Theorem quotedcp_roundtrip_partial : forall s,
   all_ascii s = true -> (do u <- ue_loop (escapify s) []; utf8_encode u) = Ok s.
 Proof. exact codepoint_path_ascii. Qed.
@@ -265,7 +265,7 @@ Proof. repeat split; vm_compute; reflexivity. Qed.
 (* ------------------------------------------------------------------ NID / L64 *)
 
 (* dns/rdtypes/ANY/NID.py, L64.py keep the 64-bit value as the text xxxx:xxxx:xxxx:xxxx and validate it with
-   dns.rdtypes.util.parse_formatted_hex (after fix 19725b9: hexadecimal digits only).  A validated text is
+   dns.rdtypes.util.parse_formatted_hex (after fix 18da675: hexadecimal digits only).  A validated text is
    one tokenizer word (so it is printed and read back verbatim by the schema theorem), and the text the
    constructor builds from 8 octets (from_wire) is valid. *)
 Theorem formatted_hex_text_is_word : forall t, fmthex_ok t = true -> forallb safe t = true /\ t <> [].
@@ -420,6 +420,26 @@ Example record_check_examples :
       /\ (do text <- record_to_text ex_sty cfs del; record_from_text ex_ctx cfs (schema_chk 59) text) = Ok del
       /\ (do text <- record_to_text ex_sty fs del; record_from_text ex_ctx fs (schema_chk 43) text) = Lib eSyntax
       /\ (do text <- record_to_text ex_sty zfs z; record_from_text ex_ctx zfs (schema_chk 63) text) = Ok z
+  | _, _, _ => False
+  end.
+Proof. vm_compute. repeat split; reflexivity. Qed.
+
+(* optional and list-valued last fields: ISDN with and without subaddress, HIP with rendezvous servers
+   (relativized on output, read back with the same origin), TKEY with and without other data *)
+Example tail_field_examples :
+  match schema_of 20, schema_of 55, schema_of 249 with
+  | Some isdn, Some hip, Some tkey =>
+      let i1 := [VBytes [49; 34; 200]; VBytes [0; 92]] in
+      let i2 := [VBytes [49; 34; 200]; VBytes []] in
+      let h := [VInt 2; VBytes [32; 1; 255]; VBytes [3; 1; 0; 1; 183]; VNames [[[114; 118; 115]; [101; 120]; []]; [[92; 46]; [111]; []]]] in
+      let t1 := [VName [[103; 115; 115]; []]; VInt 0; VInt 4294967295; VInt 3; VInt 0; VBytes [1; 2; 3]; VBytes []] in
+      let t2 := [VName [[103; 115; 115]; []]; VInt 0; VInt 4294967295; VInt 3; VInt 0; VBytes [1; 2; 3]; VBytes [255]] in
+      (do text <- record_to_text ex_sty isdn i1; record_from_text ex_ctx isdn (schema_chk 20) text) = Ok i1
+      /\ (do text <- record_to_text ex_sty isdn i2; record_from_text ex_ctx isdn (schema_chk 20) (text ++ [10])) = Ok i2
+      /\ (do text <- record_to_text ex_sty hip h; record_from_text ex_ctx hip (schema_chk 55) text)
+         = Ok [VInt 2; VBytes [32; 1; 255]; VBytes [3; 1; 0; 1; 183]; VNames [[[114; 118; 115]]; [[92; 46]; [111]; []]]]
+      /\ (do text <- record_to_text ex_sty tkey t1; record_from_text ex_ctx tkey (schema_chk 249) text) = Ok t1
+      /\ (do text <- record_to_text ex_sty tkey t2; record_from_text ex_ctx tkey (schema_chk 249) (text ++ [10])) = Ok t2
   | _, _, _ => False
   end.
 Proof. vm_compute. repeat split; reflexivity. Qed.
